@@ -38,6 +38,8 @@ var c11Progs = []c11prog{
 		return "(try (count mine-OTHER) (catch e :unbound))"
 	}},
 	{"assoc-shared-map", false, func(i int) string { return fmt.Sprintf("(get (assoc sharedmap :k%d %d) :a)", i, i) }},
+	{"def-inside-called-thunk", false, func(i int) string { return fmt.Sprintf("((fn [] (def tmp %d) (list tmp tmp)))", i) }},
+	{"def-inside-future-body", true, func(i int) string { return fmt.Sprintf("(deref (future (def tmpf %d) (list tmpf tmpf)))", i) }},
 	{"cond-and-or", true, func(i int) string { return fmt.Sprintf("(list (cond false 1 (= %d %d) %d) (and 1 %d) (or nil %d))", i, i, i, i, i) }},
 	{"memoize", true, func(i int) string {
 		return fmt.Sprintf("(do (def m-%d (memoize (fn [x] (+ x %d)))) (list (m-%d 1) (m-%d 1)))", i, i, i, i)
@@ -176,7 +178,7 @@ func init() {
 		}
 		fam := &vf.Family{
 			Name:    "program-sets",
-			Bounds:  fmt.Sprintf("all unordered pairs over %d programs (local scopes, closures, catch variables, own globals, reads of a shared vector/map through conj/concat/splice/assoc, reading another evaluation's global, library macros with gensym, memoize, a future) and all triples of the %d light ones, on one shared scope over the preloaded libraries; all interleavings at env/atom lock operations and hook points with partial-order reduction (private objects, never-write-locked read locks); preemption bound: light pairs 3, heavy pairs and triples 2 (quick); light pairs 4, others 3 (thorough, plus an unreduced cross-check of light pairs at bound 1)", len(c11Progs), 10),
+			Bounds:  fmt.Sprintf("all unordered pairs over %d programs (local scopes, closures, catch variables, own globals, reads of a shared vector/map through conj/concat/splice/assoc, reading another evaluation's global, library macros with gensym, memoize, a future) and all triples of the %d light ones, on one shared scope over the preloaded libraries; all interleavings at env/atom lock operations and hook points with partial-order reduction (private objects, never-write-locked read locks); preemption bound: light pairs 3, heavy pairs and triples 2 (quick); light pairs 4, others 3 (thorough, plus an unreduced cross-check of light pairs at bound 1)", len(c11Progs), 11),
 			Setup:   setup,
 			Timeout: 1200 * time.Second,
 			N:       func(t string) int64 { tier = t; return int64(len(plansOf())) },
